@@ -1,654 +1,202 @@
 // C10: concurrent use of a real Vaxis (input goroutine, parser, timers, posting
 // goroutines, the main goroutine rendering, queries, Close/Suspend/Resume),
 // decided by stateless exploration of thread schedules under the controlled
-// scheduler. New runs under the canonical schedule (exploration window closed);
-// the window opens when the scenario's threads start.
+// scheduler (mc/schedrig).
 package main
 
 import (
 	"fmt"
-	"os"
-	"sort"
-	"runtime/pprof"
-	"strings"
 	"syscall"
 	"time"
 
 	"git.sr.ht/~rockorager/vaxis"
-	"git.sr.ht/~rockorager/vaxis/widgets/spinner"
 	vctx "git.sr.ht/~rockorager/vaxis/verifshim/vctx"
 	"git.sr.ht/~rockorager/vaxis/verifshim/vsched"
 	vsignal "git.sr.ht/~rockorager/vaxis/verifshim/vsignal"
-	vtime "git.sr.ht/~rockorager/vaxis/verifshim/vtime"
-	"verif.local/mc/explore"
+	"git.sr.ht/~rockorager/vaxis/widgets/spinner"
 	"verif.local/mc/refterm"
-	"verif.local/mc/schedcon"
+	"verif.local/mc/schedrig"
 )
 
-var r *explore.Run
-
-type userEv struct {
-	Src string
-	N   int
-}
-
-// world is the per-execution state a scenario works with.
-type world struct {
-	vx   *vaxis.Vaxis
-	con  *schedcon.Console
-	t    *refterm.Terminal
-	got  []string // events seen by the main thread, rendered
-	note []string // scenario observations
-	fail string   // scenario-specific verdict: "clause: text"
-
-	prof      refterm.Profile
-	released  bool // the held terminal replies have been delivered
-	atTimeout struct{ seen, released, handled bool }
-}
-
-func (w *world) failf(clause, format string, a ...any) {
-	if w.fail == "" {
-		w.fail = clause + "\x00" + fmt.Sprintf(format, a...)
-	}
-}
-
-func render(ev vaxis.Event) string {
-	switch e := ev.(type) {
-	case userEv:
-		return fmt.Sprintf("%s%d", e.Src, e.N)
-	case vaxis.Key:
-		return "key:" + e.String()
-	case vaxis.SyncFunc:
-		return "syncfunc"
-	case vaxis.Redraw:
-		return "redraw"
-	case vaxis.Resize:
-		return fmt.Sprintf("resize:%dx%d", e.Cols, e.Rows)
-	case vaxis.QuitEvent:
-		return "quit"
-	case vaxis.FocusIn:
-		return "focus-in"
-	}
-	return fmt.Sprintf("%T", ev)
-}
-
-// next receives one event in the main thread and gives it the standard treatment.
-func (w *world) next() (vaxis.Event, bool) {
-	ev, ok := <-vsched.Pre(w.vx.Events(), vsched.Recv)
-	vsched.Post()
-	if !ok {
-		return nil, false
-	}
-	w.got = append(w.got, render(ev))
-	switch e := ev.(type) {
-	case vaxis.SyncFunc:
-		e()
-	case vaxis.Redraw, vaxis.Resize:
-		w.draw()
-	}
-	return ev, true
-}
-
-func (w *world) draw() {
-	win := w.vx.Window()
-	win.Clear()
-	win.Print(vaxis.Segment{Text: fmt.Sprintf("n=%d", len(w.got))})
-	w.vx.Render()
-}
-
-// until consumes events until pred holds for the rendered history (max events guards against a runaway).
-func (w *world) until(pred func() bool) {
-	for i := 0; i < 60 && !pred(); i++ {
-		if _, ok := w.next(); !ok {
-			w.failf("queue-closed", "the event channel was closed while the application still waited for events")
-			return
-		}
-	}
-	if !pred() {
-		w.failf("lost-event", "an expected event never arrived; seen: %v", w.got)
-	}
-}
-
-func (w *world) checkCursor(row, col int) {
-	tr, tc, _ := w.t.Cursor()
-	if row == -1 && col == -1 && w.atTimeout.seen && w.atTimeout.released && w.atTimeout.handled {
-		w.failf("query-timeout-despite-reply", "CursorPosition timed out although the terminal's report had arrived and been handled before the time-out (events seen: %v)", w.got)
-	}
-	w.atTimeout.seen = false
-	if !(row == -1 && col == -1) && !(row == tr && col == tc) {
-		w.failf("cursor-position", "CursorPosition returned %d,%d (the terminal's cursor is at %d,%d)", row, col, tr, tc)
-	}
-}
-
-func (w *world) seen(s string) bool {
-	for _, g := range w.got {
-		if g == s {
-			return true
-		}
-	}
-	return false
-}
-
-// order checks that the events of one source were delivered in posting order.
-func (w *world) order(src string, n int) {
-	want := 1
-	for _, g := range w.got {
-		if strings.HasPrefix(g, src) {
-			var k int
-			fmt.Sscanf(g[len(src):], "%d", &k)
-			if k != want {
-				w.failf("post-order", "events of goroutine %s delivered as %v", src, w.got)
-				return
-			}
-			want++
-		}
-	}
-	if want != n+1 {
-		w.failf("lost-event", "blocking posts of goroutine %s: %d of %d delivered (%v)", src, want-1, n, w.got)
-	}
-}
-
-type scenario struct {
-	name  string
-	queue int
-	caps  refterm.Cap
-	hold  bool // terminal replies are held until released by an environment event
-	body  func(w *world)
-	final func(w *world) // after everything went quiet
-}
-
-func poster(w *world, src string, n int) {
-	vsched.GoNamed("poster-"+src, func() {
-		for i := 1; i <= n; i++ {
-			w.vx.PostEventBlocking(userEv{src, i})
-		}
-	})
-}
-
-func typeBytes(w *world, name, b string) {
-	vsched.AddEnv("input:"+name, true, func() bool { return true }, func() { w.con.Inject([]byte(b)) })
-}
-
-var scenarios = []scenario{
-	{name: "posts", queue: 2, body: func(w *world) {
-		poster(w, "A", 2)
-		poster(w, "B", 2)
+var scenarios = []schedrig.Scenario{
+	{Name: "posts", Queue: 2, Body: func(w *schedrig.World) {
+		schedrig.Poster(w, "A", 2)
+		schedrig.Poster(w, "B", 2)
 		vsched.GoNamed("sync", func() {
-			w.vx.SyncFunc(func() { w.note = append(w.note, "syncfunc ran") })
-			w.vx.Resize()
+			w.Vx.SyncFunc(func() { w.Note = append(w.Note, "syncfunc ran") })
+			w.Vx.Resize()
 		})
-		typeBytes(w, "x", "x")
-		w.until(func() bool { return w.seen("A2") && w.seen("B2") })
-		w.order("A", 2)
-		w.order("B", 2)
-		w.vx.Close()
+		schedrig.TypeBytes(w, "x", "x")
+		w.Until(func() bool { return w.Seen("A2") && w.Seen("B2") })
+		w.Order("A", 2)
+		w.Order("B", 2)
+		w.Vx.Close()
 	}},
-	{name: "posts-wide-queue", queue: 16, body: func(w *world) {
-		poster(w, "A", 3)
-		poster(w, "B", 2)
+	{Name: "posts-wide-queue", Queue: 16, Body: func(w *schedrig.World) {
+		schedrig.Poster(w, "A", 3)
+		schedrig.Poster(w, "B", 2)
 		vsched.GoNamed("nb", func() {
 			for i := 1; i <= 3; i++ {
-				w.vx.PostEvent(userEv{"N", i})
+				w.Vx.PostEvent(schedrig.UserEv{"N", i})
 			}
 		})
-		w.until(func() bool { return w.seen("A3") && w.seen("B2") && w.seen("N3") })
-		w.order("A", 3)
-		w.order("B", 2)
-		w.order("N", 3) // the queue is never full here: nothing may be dropped
-		w.vx.Close()
+		w.Until(func() bool { return w.Seen("A3") && w.Seen("B2") && w.Seen("N3") })
+		w.Order("A", 3)
+		w.Order("B", 2)
+		w.Order("N", 3) // the queue is never full here: nothing may be dropped
+		w.Vx.Close()
 	}},
-	{name: "escape-then-close", queue: 8, body: func(w *world) {
-		typeBytes(w, "esc", "\x1b")
-		poster(w, "A", 1)
-		w.until(func() bool { return w.seen("A1") })
-		w.vx.Close()
+	{Name: "escape-then-close", Queue: 8, Body: func(w *schedrig.World) {
+		schedrig.TypeBytes(w, "esc", "\x1b")
+		schedrig.Poster(w, "A", 1)
+		w.Until(func() bool { return w.Seen("A1") })
+		w.Vx.Close()
 	}},
-	{name: "escape-key", queue: 8, body: func(w *world) {
-		typeBytes(w, "esc", "\x1b")
-		w.until(func() bool { return w.seen("key:Escape") })
-		typeBytes(w, "a", "a")
-		w.until(func() bool { return w.seen("key:a") })
-		w.vx.Close()
+	{Name: "escape-key", Queue: 8, Body: func(w *schedrig.World) {
+		schedrig.TypeBytes(w, "esc", "\x1b")
+		w.Until(func() bool { return w.Seen("key:Escape") })
+		schedrig.TypeBytes(w, "a", "a")
+		w.Until(func() bool { return w.Seen("key:a") })
+		w.Vx.Close()
 	}},
-	{name: "render-vs-input", queue: 8, body: func(w *world) {
-		typeBytes(w, "keys", "ab")
-		typeBytes(w, "focus", "\x1b[I")
-		vsched.GoNamed("resizer", func() { w.vx.Resize() })
-		w.draw()
-		w.until(func() bool { return w.seen("key:a") && w.seen("key:b") && w.seen("focus-in") && w.seen("redraw") })
-		if i, j := indexOf(w.got, "key:a"), indexOf(w.got, "key:b"); i > j {
-			w.failf("input-order", "terminal input delivered out of order: %v", w.got)
+	{Name: "render-vs-input", Queue: 8, Body: func(w *schedrig.World) {
+		schedrig.TypeBytes(w, "keys", "ab")
+		schedrig.TypeBytes(w, "focus", "\x1b[I")
+		vsched.GoNamed("resizer", func() { w.Vx.Resize() })
+		w.Draw()
+		w.Until(func() bool { return w.Seen("key:a") && w.Seen("key:b") && w.Seen("focus-in") && w.Seen("redraw") })
+		if i, j := schedrig.IndexOf(w.Got, "key:a"), schedrig.IndexOf(w.Got, "key:b"); i > j {
+			w.Failf("input-order", "terminal input delivered out of order: %v", w.Got)
 		}
-		w.vx.Close()
+		w.Vx.Close()
 	}},
-	{name: "cursor-position", queue: 8, hold: true, body: func(w *world) {
-		vsched.AddEnv("terminal-replies", true, func() bool { return len(w.con.Held) > 0 }, func() { w.con.Release(); w.released = true })
-		poster(w, "A", 1)
-		row, col := w.vx.CursorPosition()
-		w.checkCursor(row, col)
-		w.note = append(w.note, fmt.Sprintf("cursor=%d,%d", row, col))
-		w.until(func() bool { return w.seen("A1") })
-		w.con.Hold = false
-		w.vx.Close()
+	{Name: "cursor-position", Queue: 8, Hold: true, Body: func(w *schedrig.World) {
+		vsched.AddEnv("terminal-replies", true, func() bool { return len(w.Con.Held) > 0 }, func() { w.Con.Release(); w.Released = true })
+		schedrig.Poster(w, "A", 1)
+		row, col := w.Vx.CursorPosition()
+		w.CheckCursor(row, col)
+		w.Note = append(w.Note, fmt.Sprintf("cursor=%d,%d", row, col))
+		w.Until(func() bool { return w.Seen("A1") })
+		w.Con.Hold = false
+		w.Vx.Close()
 	}},
-	{name: "cursor-position-twice", queue: 8, hold: true, body: func(w *world) {
-		vsched.AddEnv("terminal-replies", false, func() bool { return len(w.con.Held) > 0 }, func() { w.con.Release(); w.released = true })
+	{Name: "cursor-position-twice", Queue: 8, Hold: true, Body: func(w *schedrig.World) {
+		vsched.AddEnv("terminal-replies", false, func() bool { return len(w.Con.Held) > 0 }, func() { w.Con.Release(); w.Released = true })
 		for i := 0; i < 2; i++ {
-			w.released = false
-			row, col := w.vx.CursorPosition()
-			w.checkCursor(row, col)
+			w.Released = false
+			row, col := w.Vx.CursorPosition()
+			w.CheckCursor(row, col)
 		}
-		w.con.Hold = false
-		w.con.Release()
-		w.vx.Close()
+		w.Con.Hold = false
+		w.Con.Release()
+		w.Vx.Close()
 	}},
-	{name: "cursor-position-unanswered-then-F3", queue: 8, caps: refterm.CapRGB | refterm.CapSync, body: func(w *world) {
-		w.con.Mute = true
-		row, col := w.vx.CursorPosition()
-		w.con.Mute = false
+	{Name: "cursor-position-unanswered-then-F3", Queue: 8, Caps: refterm.CapRGB | refterm.CapSync, Body: func(w *schedrig.World) {
+		w.Con.Mute = true
+		row, col := w.Vx.CursorPosition()
+		w.Con.Mute = false
 		if row != -1 || col != -1 {
-			w.failf("cursor-position", "CursorPosition returned %d,%d although the terminal never answered", row, col)
+			w.Failf("cursor-position", "CursorPosition returned %d,%d although the terminal never answered", row, col)
 		}
 		// Shift+F3 has the shape of a cursor position report
-		typeBytes(w, "shift-f3", "\x1b[1;2R")
-		typeBytes(w, "f3", "\x1b[R")
-		w.until(func() bool { return w.seen("key:Shift+F3") && w.seen("key:F3") })
-		w.vx.Close()
+		schedrig.TypeBytes(w, "shift-f3", "\x1b[1;2R")
+		schedrig.TypeBytes(w, "f3", "\x1b[R")
+		w.Until(func() bool { return w.Seen("key:Shift+F3") && w.Seen("key:F3") })
+		w.Vx.Close()
 	}},
-	{name: "clipboard", queue: 8, hold: true, body: func(w *world) {
-		vsched.AddEnv("terminal-replies", true, func() bool { return len(w.con.Held) > 0 }, func() { w.con.Release() })
+	{Name: "clipboard", Queue: 8, Hold: true, Body: func(w *schedrig.World) {
+		vsched.AddEnv("terminal-replies", true, func() bool { return len(w.Con.Held) > 0 }, func() { w.Con.Release() })
 		ctx, cancel := vctx.WithTimeout(vctx.Background(), 20*time.Millisecond)
-		s, err := w.vx.ClipboardPop(ctx)
+		s, err := w.Vx.ClipboardPop(ctx)
 		cancel()
 		if err == nil && s != "hello" {
-			w.failf("clipboard", "ClipboardPop returned %q", s)
+			w.Failf("clipboard", "ClipboardPop returned %q", s)
 		}
-		w.con.Hold = false
-		w.con.Release()
-		typeBytes(w, "z", "z")
-		w.until(func() bool { return w.seen("key:z") })
-		w.vx.Close()
+		w.Con.Hold = false
+		w.Con.Release()
+		schedrig.TypeBytes(w, "z", "z")
+		w.Until(func() bool { return w.Seen("key:z") })
+		w.Vx.Close()
 	}},
-	{name: "suspend-resume", queue: 8, body: func(w *world) {
-		poster(w, "A", 2)
-		typeBytes(w, "k", "k")
-		if err := w.vx.Suspend(); err != nil {
-			w.failf("suspend", "Suspend: %v", err)
+	{Name: "suspend-resume", Queue: 8, Body: func(w *schedrig.World) {
+		schedrig.Poster(w, "A", 2)
+		schedrig.TypeBytes(w, "k", "k")
+		if err := w.Vx.Suspend(); err != nil {
+			w.Failf("suspend", "Suspend: %v", err)
 		}
-		if err := w.vx.Resume(); err != nil {
-			w.failf("resume", "Resume: %v", err)
+		if err := w.Vx.Resume(); err != nil {
+			w.Failf("resume", "Resume: %v", err)
 		}
-		w.until(func() bool { return w.seen("A2") })
-		w.order("A", 2)
-		w.vx.Close()
+		w.Until(func() bool { return w.Seen("A2") })
+		w.Order("A", 2)
+		w.Vx.Close()
 	}},
-	{name: "suspend-with-escape", queue: 8, body: func(w *world) {
-		typeBytes(w, "esc", "\x1b")
-		w.vx.Suspend()
-		w.vx.Resume()
-		typeBytes(w, "q", "q")
+	{Name: "suspend-with-escape", Queue: 8, Body: func(w *schedrig.World) {
+		schedrig.TypeBytes(w, "esc", "\x1b")
+		w.Vx.Suspend()
+		w.Vx.Resume()
+		schedrig.TypeBytes(w, "q", "q")
 		// ESC directly followed by q is Alt+q
-		w.until(func() bool { return w.seen("key:q") || w.seen("key:Alt+q") })
-		w.vx.Close()
+		w.Until(func() bool { return w.Seen("key:q") || w.Seen("key:Alt+q") })
+		w.Vx.Close()
 	}},
-	{name: "close-with-full-queue", queue: 2, body: func(w *world) {
-		typeBytes(w, "keys", "abcdefg")
-		w.until(func() bool { return w.seen("key:a") })
-		w.vx.Close()
+	{Name: "close-with-full-queue", Queue: 2, Body: func(w *schedrig.World) {
+		schedrig.TypeBytes(w, "keys", "abcdefg")
+		w.Until(func() bool { return w.Seen("key:a") })
+		w.Vx.Close()
 	}},
-	{name: "suspend-with-full-queue", queue: 2, body: func(w *world) {
-		typeBytes(w, "keys", "abcdefg")
-		w.until(func() bool { return w.seen("key:a") })
-		w.vx.Suspend()
-		w.vx.Resume()
-		w.until(func() bool { return w.seen("key:g") })
-		w.vx.Close()
+	{Name: "suspend-with-full-queue", Queue: 2, Body: func(w *schedrig.World) {
+		schedrig.TypeBytes(w, "keys", "abcdefg")
+		w.Until(func() bool { return w.Seen("key:a") })
+		w.Vx.Suspend()
+		w.Vx.Resume()
+		w.Until(func() bool { return w.Seen("key:g") })
+		w.Vx.Close()
 	}},
-	{name: "sigterm", queue: 8, body: func(w *world) {
+	{Name: "sigterm", Queue: 8, Body: func(w *schedrig.World) {
 		vsched.AddEnv("SIGTERM", true, func() bool { return true }, func() { vsignal.Deliver(syscall.SIGTERM) })
-		typeBytes(w, "keys", "ab")
-		poster(w, "A", 1)
-		w.draw()
-		for i := 0; i < 40 && !w.seen("quit"); i++ {
-			if _, ok := w.next(); !ok {
+		schedrig.TypeBytes(w, "keys", "ab")
+		schedrig.Poster(w, "A", 1)
+		w.Draw()
+		for i := 0; i < 40 && !w.Seen("quit"); i++ {
+			if _, ok := w.Next(); !ok {
 				break
 			}
 		}
-		if !w.seen("quit") {
-			w.failf("lost-event", "no QuitEvent after SIGTERM; seen: %v", w.got)
+		if !w.Seen("quit") {
+			w.Failf("lost-event", "no QuitEvent after SIGTERM; seen: %v", w.Got)
 		}
-		w.vx.Close()
+		w.Vx.Close()
 	}},
-	{name: "spinner", queue: 8, body: func(w *world) {
-		sp := spinner.New(w.vx, 100*time.Millisecond)
+	{Name: "spinner", Queue: 8, Body: func(w *schedrig.World) {
+		sp := spinner.New(w.Vx, 100*time.Millisecond)
 		sp.Start()
 		redraws := 0
 		for i := 0; i < 40 && redraws < 3; i++ {
-			ev, ok := w.next()
+			ev, ok := w.Next()
 			if !ok {
 				break
 			}
 			if _, isRedraw := ev.(vaxis.Redraw); isRedraw {
 				redraws++
 			}
-			sp.Draw(w.vx.Window())
+			sp.Draw(w.Vx.Window())
 		}
 		sp.Stop()
-		w.until(func() bool { return w.got[len(w.got)-1] == "syncfunc" })
-		w.vx.Close()
+		w.Until(func() bool { return w.Got[len(w.Got)-1] == "syncfunc" })
+		w.Vx.Close()
 	}},
-	{name: "sigwinch", queue: 8, body: func(w *world) {
+	{Name: "sigwinch", Queue: 8, Body: func(w *schedrig.World) {
 		vsched.AddEnv("SIGWINCH", true, func() bool { return true }, func() {
-			w.t.Resize(30, 8)
+			w.T.Resize(30, 8)
 			vsignal.Deliver(syscall.SIGWINCH)
 		})
-		poster(w, "A", 1)
-		w.until(func() bool { return w.seen("A1") && w.seen("resize:30x8") })
-		w.vx.Close()
+		schedrig.Poster(w, "A", 1)
+		w.Until(func() bool { return w.Seen("A1") && w.Seen("resize:30x8") })
+		w.Vx.Close()
 	}},
-}
-
-func diffTables(a, b map[string]string) map[string]string {
-	d := map[string]string{}
-	for k, v := range a {
-		if b[k] != v {
-			d[k] = fmt.Sprintf("%s -> %s", v, b[k])
-		}
-	}
-	return d
-}
-
-func indexOf(l []string, s string) int {
-	for i, x := range l {
-		if x == s {
-			return i
-		}
-	}
-	return 1 << 30
-}
-
-// ---- one execution ----------------------------------------------------------------------------------------------------
-
-func execute(sc *scenario, prefix []int) (*vsched.Result, *world) {
-	vsignal.ResetAll()
-	caps := sc.caps
-	if caps == 0 {
-		caps = refterm.CapRGB | refterm.CapSync | refterm.CapKittyKB
-	}
-	prof := refterm.DefaultProfile(caps, refterm.VersionOther)
-	prof.ClipboardReply = "aGVsbG8="
-	t := refterm.New(20, 6, prof)
-	w := &world{t: t, con: schedcon.New(t), prof: prof}
-	res := vsched.Run(prefix, 6000, func(s *vsched.Sched) {
-		s.Closed = true
-		s.Races = true
-		s.OnEnv = func(e *vsched.Env) {
-			if tm := e.Timer(); tm != nil && tm.D == 50*time.Millisecond {
-				// what had happened by the time the query's time-out struck
-				w.atTimeout.seen = true
-				w.atTimeout.released = w.released
-				w.atTimeout.handled = w.con.Idle() && vsched.OthersBlocked("") // everybody, the asking goroutine included, was waiting: the time-out struck in real silence
-			}
-		}
-		s.TimerGate = func(tm *vtime.Timer) bool {
-			if tm.D == 10*time.Millisecond && tm.IsFunc() {
-				// the Escape timer can fire only while the parser waits for input
-				return w.con.Idle()
-			}
-			return true
-		}
-	}, func() {
-		vx, err := vaxis.New(vaxis.Options{WithConsole: w.con, EventQueueSize: sc.queue})
-		if err != nil {
-			w.failf("new", "New failed: %v", err)
-			return
-		}
-		w.vx = vx
-		// let the input goroutine handle the start-up replies that follow DA1
-		w.con.Inject([]byte("\x1b[I"))
-		w.until(func() bool { return w.seen("focus-in") })
-		w.got = nil
-		w.con.Hold = sc.hold
-		vsched.Window(true)
-		sc.body(w)
-	})
-	return res, w
-}
-
-type detail struct {
-	Scenario string   `json:"scenario"`
-	Fair     bool     `json:"fair_order"`
-	Schedule []int    `json:"schedule"`
-	Trace    []string `json:"trace,omitempty"`
-	Events   []string `json:"events_seen,omitempty"`
-	What     string   `json:"what"`
-}
-
-func check(sc *scenario, res *vsched.Result, w *world) (sig, what string) {
-	switch {
-	case res.Diverged != "":
-		r.Fault("schedule diverged: %s (%s)", res.Diverged, sc.name)
-	case len(res.Panics) > 0:
-		p := res.Panics[0]
-		return fmt.Sprintf("C10|panic|%s|%s", p.Site, explore.PanicClass(p.Value)), fmt.Sprintf("thread %s panicked: %s", p.Thread, p.Value)
-	case res.Exceeded:
-		return "C10|runaway|" + sc.name, "the execution did not finish within the step limit"
-	case res.Deadlock != "":
-		return "C10|deadlock|" + sc.name + "|" + blockedKinds(res.Deadlock), "no thread can run: " + res.Deadlock
-	case w.fail != "":
-		p := strings.SplitN(w.fail, "\x00", 2)
-		return "C10|" + p[0] + "|" + sc.name, p[1]
-	case len(res.Blocked) > 0:
-		return "C10|goroutine-outlives-close|" + sc.name + "|" + blockedKinds(strings.Join(res.Blocked, "; ")), "still blocked after Close returned: " + strings.Join(res.Blocked, "; ")
-	case w.con.Closes != 1:
-		return "C10|console-close|" + sc.name, fmt.Sprintf("console closed %d times", w.con.Closes)
-	case w.con.Resets < w.con.SetRaws:
-		return "C10|still-raw|" + sc.name, fmt.Sprintf("console made raw %d times, reset %d times", w.con.SetRaws, w.con.Resets)
-	}
-	// whatever the interleaving, Close leaves the terminal as it was before New
-	if d := diffTables(refterm.New(w.t.Cols, w.t.Rows, w.prof).ModeTable(), w.t.ModeTable()); len(d) > 0 {
-		var keys []string
-		for k := range d {
-			keys = append(keys, k)
-		}
-		sort.Strings(keys)
-		return "C10|not-restored|" + sc.name + "|" + strings.Join(keys, ","), fmt.Sprintf("terminal state after Close differs from the state before New: %v", d)
-	}
-	return "", ""
-}
-
-// blockedKinds abstracts a list of blocked threads to thread names (without ids).
-func blockedKinds(s string) string {
-	var out []string
-	for _, p := range strings.Split(s, "; ") {
-		n := strings.SplitN(p, ":", 2)[0]
-		if strings.HasPrefix(n, "t") && len(n) > 1 && n[1] >= '0' && n[1] <= '9' {
-			n = "library-goroutine"
-		}
-		dup := false
-		for _, o := range out {
-			if o == n {
-				dup = true
-			}
-		}
-		if !dup {
-			out = append(out, n)
-		}
-	}
-	return strings.Join(out, "+")
-}
-
-var lastWorld *world
-
-func exploreScenario(sc *scenario, bound int, budget int64, shard, nshards int) {
-	outcomes := map[string]bool{}
-	n, capped := vsched.Explore(bound, budget, shard, nshards, func(prefix []int) *vsched.Result {
-		res, w := execute(sc, prefix)
-		lastWorld = w
-		return res
-	}, func(prefix []int, res *vsched.Result) {
-		w := lastWorld
-		r.Count("points", int64(len(res.Trace)))
-		outcomes[strings.Join(w.got, ",")+"|"+strings.Join(w.note, ",")] = true
-		for _, rc := range res.Races {
-			var sched []int
-			for _, p := range res.Trace {
-				sched = append(sched, p.Chosen)
-			}
-			sig := fmt.Sprintf("C10|race|%s|%s~%s|%s|%s", rc.Field, rc.RootA, rc.RootB, rc.A, rc.B)
-			// one call site, many fields: Close running on the input goroutine (kill signal, panic)
-			for _, side := range [][2]string{{rc.RootA, rc.RootB}, {rc.RootB, rc.RootA}} {
-				if side[0] == "Vaxis.Close@library-goroutine" {
-					sig = fmt.Sprintf("C10|race|close-on-input-goroutine|%s|%s", side[1], rc.Field)
-				}
-			}
-			r.Violation(sig, len(sched), detail{Scenario: sc.name, Fair: vsched.FairOrder, Schedule: sched, Events: w.got,
-				What: fmt.Sprintf("data race on %s: [%s] (inside %s) and [%s] (inside %s) are not ordered by any synchronisation (r = read, w = write)", rc.Field, rc.A, rc.RootA, rc.B, rc.RootB)})
-		}
-		if sig, what := check(sc, res, w); sig != "" {
-			var sched []int
-			for _, p := range res.Trace {
-				sched = append(sched, p.Chosen)
-			}
-			// run the schedule again with descriptions for the report
-			vsched.Describe = true
-			res2, w2 := execute(sc, sched)
-			vsched.Describe = false
-			if sig2, _ := check(sc, res2, w2); sig2 != sig {
-				r.Fault("replaying a violating schedule gave %q instead of %q (scenario %s)", sig2, sig, sc.name)
-			}
-			var tr []string
-			open := false
-			for _, p := range res2.Trace {
-				if !p.Fixed && !open {
-					open = true
-					tr = append(tr, "... (start-up under the canonical schedule)")
-				}
-				if open {
-					tr = append(tr, p.Desc)
-				}
-			}
-			r.Violation(sig, len(tr), detail{Scenario: sc.name, Fair: vsched.FairOrder, Schedule: sched, Trace: tr, Events: w.got, What: what})
-		}
-	})
-	r.Count("executions", n)
-	r.Count(fmt.Sprintf("exec:%s:%d", sc.name, bound), n)
-	r.Count(fmt.Sprintf("outcomes:%s", sc.name), int64(len(outcomes)))
-	if capped {
-		r.Count(fmt.Sprintf("capped:%s:%d", sc.name, bound), 1)
-	}
 }
 
 func main() {
-	if os.Getenv("VERIF_BENCH") != "" {
-		f, _ := os.Create(os.Getenv("VERIF_BENCH"))
-		pprof.StartCPUProfile(f)
-		t0 := time.Now()
-		pts := 0
-		for i := 0; i < 300; i++ {
-			res, _ := execute(&scenarios[0], nil)
-			pts = len(res.Trace)
-		}
-		pprof.StopCPUProfile()
-		fmt.Println("per execution:", time.Since(t0)/300, "points:", pts)
-		return
-	}
-	r = explore.Start("C10")
-	vsched.DeviationCost = true
-	if r.Replay != "" {
-		var d detail
-		r.LoadReplay(&d)
-		for i := range scenarios {
-			if scenarios[i].name == d.Scenario {
-				vsched.Describe = true
-				vsched.FairOrder = d.Fair
-				res, w := execute(&scenarios[i], d.Schedule)
-				for i, p := range res.Trace {
-					if !p.Fixed {
-						fmt.Printf("%4d  %-44s enabled=%v\n", i, p.Desc, p.Enabled)
-					}
-				}
-				fmt.Println("events:", w.got, w.note)
-				for _, rc := range res.Races {
-					fmt.Printf("VIOLATION property=C10 replay=%s\n  data race on %s: [%s] / [%s]\n", r.Replay, rc.Field, rc.A, rc.B)
-				}
-				if len(res.Races) > 0 {
-					os.Exit(1)
-				}
-				if sig, what := check(&scenarios[i], res, w); sig != "" {
-					fmt.Printf("VIOLATION property=C10 replay=%s\n  %s: %s\n", r.Replay, sig, what)
-					os.Exit(1)
-				}
-				fmt.Println("replay: property holds on this schedule")
-				os.Exit(0)
-			}
-		}
-		r.Fault("unknown scenario %q", d.Scenario)
-	}
-	// bounds explored completely / with an execution budget
-	full := r.Pick(2, 3)
-	top := r.Pick(2, 4)
-	budget := int64(r.Pick(0, 1000000))
-	if v := os.Getenv("VERIF_FULL"); v != "" {
-		fmt.Sscan(v, &full)
-	}
-	if v := os.Getenv("VERIF_TOP"); v != "" {
-		fmt.Sscan(v, &top)
-	}
-	if v := os.Getenv("VERIF_BUDGET"); v != "" {
-		fmt.Sscan(v, &budget)
-	}
-	if idx, n, _, ok := r.Worker(); ok {
-		r.Watchdog(300 * time.Second)
-		for i := range scenarios {
-			if only := os.Getenv("VERIF_ONLY"); only != "" && !strings.Contains(","+only+",", ","+scenarios[i].name+",") {
-				continue
-			}
-			// two canonical orders (lowest thread id first / least recently run first):
-			// the set of schedules within k deviations differs, both are explored
-			for _, fair := range []bool{false, true} {
-				vsched.FairOrder = fair
-				exploreScenario(&scenarios[i], full, 0, idx, n)
-				if top > full {
-					exploreScenario(&scenarios[i], top, budget/int64(n), idx, n)
-				}
-			}
-		}
-		r.WorkerDone()
-	}
-	r.Spawn(16, "scenarios", 0)
-	ex := r.Get("executions")
-	perScenario := map[string]any{}
-	cappedN := 0
-	for i := range scenarios {
-		name := scenarios[i].name
-		m := map[string]any{
-			fmt.Sprintf("executions_bound_%d_complete", full): r.Get(fmt.Sprintf("exec:%s:%d", name, full)),
-			"distinct_outcomes_summed_over_shards":            r.Get("outcomes:" + name),
-		}
-		if top > full {
-			m[fmt.Sprintf("executions_bound_%d", top)] = r.Get(fmt.Sprintf("exec:%s:%d", name, top))
-			c := r.Get(fmt.Sprintf("capped:%s:%d", name, top)) > 0
-			m[fmt.Sprintf("bound_%d_complete", top)] = !c
-			if c {
-				cappedN++
-			}
-		}
-		perScenario[name] = m
-		r.Distinct(explore.Hash(name))
-	}
-	if cappedN > 0 {
-		r.CapHit("%d of %d scenarios reached the execution budget (%d) at deviation bound %d; deviation bound %d was explored completely for every scenario", cappedN, len(scenarios), budget, top, full)
-	}
-	r.Finish(explore.Coverage{
-		States: -1, Transitions: r.Get("points"), Traces: ex, Evaluations: ex,
-		Rule: fmt.Sprintf("stateless exploration of thread schedules of a real Vaxis on a scheduler-aware console backed by the reference terminal: %d scenarios (posting goroutines with a 2-slot and a 16-slot queue, SyncFunc, Resize, typed input, lone ESC around the timer, rendering against input, CursorPosition and ClipboardPop with replies early/late/never, Suspend/Resume, Close and Suspend with a full queue, SIGWINCH, SIGTERM, spinner widget); New runs under the canonical schedule, then every schedule with <=%d deviations completely (under two canonical orders: lowest thread id first and least recently run first) and with <=%d deviations up to an execution budget (a deviation is a preemption, or a timer/terminal reply/typed input/signal occurring while a thread could run; switches at blocking points are free). Oracle per execution: no panic, no deadlock, blocking posts all delivered and in posting order per goroutine, terminal input in order, query results correct or timed out, Close/Suspend/Resume return, no library goroutine left blocked after Close, console closed exactly once. distinct = scenarios", len(scenarios), full, top),
-		Exhaustive: cappedN == 0,
-		Bounds: map[string]any{"deviation_bound_complete": full, "deviation_bound_budgeted": top, "execution_budget_per_scenario": budget, "scenarios": len(scenarios),
-			"scenarios_capped_at_top_bound": cappedN, "step_limit": 6000, "per_scenario": perScenario},
-		Assumptions: []string{
-			"scheduling points are the synchronisation operations (channels, select, close, mutexes, atomics, go, timers, console calls); plain memory accesses between them are atomic here - unsynchronised accesses are the subject of the free-running race-detector pass",
-			"timers may fire at any scheduling point once armed, except the 10 ms Escape timer, which fires only while the parser waits for input",
-		},
-	})
+	schedrig.Main("C10", scenarios, "posting goroutines with a 2-slot and a 16-slot queue, SyncFunc, Resize, typed input, lone ESC around the timer, rendering against input, CursorPosition (once, twice, unanswered then F3) and ClipboardPop with replies early/late/never, Suspend/Resume plain / with ESC pending / with a full queue, Close with a full queue, SIGWINCH, SIGTERM, spinner widget")
 }
